@@ -29,6 +29,7 @@ MID = {'leaf_kinds': ['none', 'bool', 'int', 'float', 'special', 'str'], 'key_ki
        'specials': [-0.0, float('inf')], 'lits': ['true', '']}
 SLIM = {'leaf_kinds': ['none', 'bool', 'int', 'float', 'str'], 'key_kinds': ['str', 'int', 'bool'], 'specials': [], 'lits': ['true']}
 TINY = {'leaf_kinds': ['int'], 'key_kinds': ['str', 'int'], 'specials': [], 'lits': ['true']}
+FALSY = {'leaf_kinds': ['none', 'bool', 'int', 'str'], 'key_kinds': ['str'], 'specials': [], 'lits': ['']}
 SPELLINGS = ['abs', 'rel', 'dot', 'slashes', 'trailing', 'dotdot', 'bytes', 'pathlike']
 
 
@@ -41,6 +42,9 @@ def families(tier):
         {'name': 'bf-next-build', 'params': {'depth': 0, 'width': 0, 'shape': SLIM, 'kw': True}, 'weight': 2},
         {'name': 'bf-cwd', 'params': {'depth': 0, 'width': 0, 'shape': TINY, 'kw': False}, 'weight': 1},
         {'name': 'bf-next-build', 'params': {'depth': 1, 'width': 1, 'shape': TINY, 'kw': False, 'containers': ['dict'], 'spellings': ['abs']}, 'weight': 1},
+        # build_file compares arguments with is_equal (not through the hashable form): lists, empty containers and the
+        # falsy leaves against each other
+        {'name': 'bf-next-build', 'params': {'depth': 1, 'width': 1, 'shape': FALSY, 'kw': False, 'spellings': ['abs']}, 'weight': 2},
     ]
     if tier == 'quick':
         return q
